@@ -133,6 +133,28 @@ GROUPS = {
          calls={"X:Pds.TDigest.ScaleFn α.f": ("{0}.f {1} {2}", "F"), "X:Pds.TDigest.ScaleFn α.f_inv": ("{0}.fInv {1} {2}", "F"),
                 "S:Centroid.fuse": ("let p_ := Centroid_fuse {0}.sum {0}.count {1}.sum {1}.count; ({ sum := p_.1, count := p_.2 } : Pds.TDigest.Centroid α)", "S:Centroid")}),
  ],
+ "k_clear": [
+    dict(file="src/filters/cuckoofilter.rs", impl=r"impl<T, R, B> Filter<T> for CuckooFilter<T, R, B>", fn="clear", lean="cuckoo_clear", mode="flow",
+         self=[], self_mut=[("table", "L(N)"), ("n_elements", "N")], returns="self",
+         subst=[(r"IntVector::with_fill\(self\.table\.element_bits\(\), self\.table\.len\(\), 0\)", "vec_zeros(self.table.len())")],
+         calls={"vec_zeros": ("List.replicate {0} (0 : Nat)", "L(N)")}),
+    dict(file="src/filters/cuckoofilter.rs", impl=r"impl<T, R, B> Filter<T> for CuckooFilter<T, R, B>", fn="is_empty", lean="cuckoo_is_empty", mode="flow",
+         self=[("n_elements", "N")], self_mut=[], returns="B"),
+    dict(file="src/reservoirsampling.rs", fn="is_empty", lean="reservoir_is_empty", mode="flow",
+         self=[("i", "N")], self_mut=[], returns="B"),
+    dict(file="src/hyperloglog/mod.rs", fn="clear", lean="hll_clear", mode="flow",
+         self=[], self_mut=[("registers", "L(N)")], returns="self",
+         subst=[(r"vec!\[0; self\.registers\.len\(\)\]", "vec_zeros(self.registers.len())")],
+         calls={"vec_zeros": ("List.replicate {0} (0 : Nat)", "L(N)")}),
+    dict(file="src/countminsketch.rs", fn="clear", lean="cms_clear", mode="flow",
+         self=[("w", "N"), ("d", "N")], self_mut=[("table", "L(N)")], returns="self",
+         subst=[(r"self\.table = vec!\[C::zero\(\); self\.w\.checked_mul\(self\.d\)\.unwrap\(\)\];",
+                 "let n = checked_mul(self.w, self.d); self.table = vec_zeros(n);")],
+         calls={"vec_zeros": ("List.replicate {0} (0 : Nat)", "L(N)")},
+         effects={"checked_mul": ("KOps.checkedMul {0} {1}", "N", None)}),
+    dict(file="src/tdigest.rs", impl=r"impl<S> TDigestInner<S>", fn="is_empty", lean="td_is_empty", mode="flow",
+         self=[("centroids", "L(S:Centroid)"), ("backlog", "L(S:Centroid)")], self_mut=[], returns="B"),
+ ],
  "k_bloom_ops": [
     dict(file="src/filters/bloomfilter.rs", fn="insert", lean="bloom_insert", mode="flow",
          self=[], self_mut=[("bs", "L(B)")], extra=[("positions", "L(N)")], drop=["obj"], returns="B",
@@ -240,7 +262,7 @@ STRUCTS = {
 MODULE = {"k_td_core": "TdCore", "k_td_scale": "TdScale", "k_sizing_bloom": "SizingBloom", "k_sizing_cms": "SizingCms",
           "k_sizing_lossy": "SizingLossy", "k_sizing_cuckoo": "SizingCuckoo", "k_lossy_window": "LossyWindow", "k_alloc": "Alloc", "k_hll_add": "HllAdd",
           "k_hll_err": "HllErr", "k_hashiter": "HashIter", "k_cuckoo": "Cuckoo", "k_quotient": "Quotient", "k_reservoir": "Reservoir",
-          "k_reservoir_add": "ReservoirAdd", "k_td_read": "TdRead", "k_td_merge": "TdMerge", "k_bloom_ops": "BloomOps", "k_cms_ops": "CmsOps", "k_cuckoo_ops": "CuckooOps"}
+          "k_reservoir_add": "ReservoirAdd", "k_td_read": "TdRead", "k_td_merge": "TdMerge", "k_bloom_ops": "BloomOps", "k_cms_ops": "CmsOps", "k_cuckoo_ops": "CuckooOps", "k_clear": "Clear"}
 IMPORTS = {"k_td_read": ["TdCore"], "k_td_merge": ["TdCore"]}
 # hand-written modules a generated module needs (type definitions only)
-LEAN_IMPORTS = {"k_cuckoo_ops": ["Pds.Model.Cuckoo"], "k_reservoir_add": ["Pds.Model.Reservoir"], "k_td_read": ["Pds.Model.TDigest"], "k_td_merge": ["Pds.Model.TDigest"]}
+LEAN_IMPORTS = {"k_clear": ["Pds.Model.TDigest"], "k_cuckoo_ops": ["Pds.Model.Cuckoo"], "k_reservoir_add": ["Pds.Model.Reservoir"], "k_td_read": ["Pds.Model.TDigest"], "k_td_merge": ["Pds.Model.TDigest"]}
